@@ -130,8 +130,12 @@ def gen_mutated(rng):
         elif t < 0.8:
             out += R.wire(R.f_rstack(rng.randrange(256)))
             rx = 0
-        elif t < 0.9:
+        elif t < 0.87:
             out += R.wire(R.f_error(rng.randrange(256)))
+        elif t < 0.94:
+            # a CRC-valid frame with ANY control byte >= 0xC0 (the RST / RSTACK / ERROR corner of the control-byte space and its undefined
+            # neighbours) and one of the body shapes those frames have
+            out += R.wire(bytes([0xC0 | rng.randrange(64)]) + rng.choice((b"", bytes([0x02, rng.randrange(256)]), bytes([0x02, 0x0B]), bytes([0x01, 0x51]))))
         else:
             out += R.wire(R.f_rst())
     n = rng.choice((0, 0, 1, 1, 2, 3))
